@@ -187,6 +187,10 @@ func c04ValuePool(base types.EnvType) []struct {
 		// appended (indices above are used by position): functions that went through with-meta / the ^ reader macro
 		{"closure-with-meta", ev("(with-meta (fn (x) x) {:doc 1})")}, {"closure-reader-meta", ev("^{:a 1} (fn (x) x)")},
 		{"macro-with-meta", ev("(do (defmacro c04mm (with-meta (fn (x) x) {:m 1})) c04mm)")}, {"builtin-with-meta", ev("(with-meta + {:b 1})")},
+		// appended in round 8 (statement coverage showed the JSON decoders, reached only with well-formed JSON, were never
+		// entered): strings that are JSON arrays / objects / string arrays, lisp source text, empty vector / map / set
+		{"json-array", `[1,[2],{"a":1},null,"s",1.5,true,[[]],{}]`}, {"json-object", `{"a":{"b":[1,2,null]},"c":[],"d":"s","e":1e400}`}, {"json-strings", `["a","b","a"]`},
+		{"lisp-source", "(do (def c04x 1) [c04x {:a #{}}])"}, {"empty-vec", types.Vector{}}, {"empty-map", types.HashMap{}}, {"empty-set", types.Set{}},
 	}
 }
 
